@@ -448,7 +448,7 @@ def run_impl(case, want_model_line=True):
             ctx.delete_at(blk, off, ln, retarget_to_proxy=to_proxy)
         else:
             ctx.replace_at(blk, off, ln, p)
-    rec = {"state": None, "patches": [], "final": None}
+    rec = {"state": None, "patches": [], "final": None, "codes": []}
     orig_cache, orig_insert = R.make_modify_cache, R.insert
 
     @contextlib.contextmanager
@@ -466,6 +466,7 @@ def run_impl(case, want_model_line=True):
         rec["final"] = canonical_dump(module, ids, fids)
 
     def insert_wrapper(cache, block, offset, replacement_length, code):
+        rec["codes"].append((bytes(code.text_section.data), code))
         if want_model_line:
             rec["patches"].append(dump_patch(code, ids))
         return orig_insert(cache, block, offset, replacement_length, code)
@@ -477,6 +478,18 @@ def run_impl(case, want_model_line=True):
         err = type(e).__name__
     finally:
         R.make_modify_cache, R.insert = orig_cache, orig_insert
+    # which captured patch belongs to which registered modification (the order apply() uses)
+    mod_code = {}
+    if rec.get("blocks_in_order") is not None:
+        k = 0
+        for blk in rec["blocks_in_order"]:
+            if not any(blk is g for g in B.gbs):
+                continue
+            i = next(j for j, g in enumerate(B.gbs) if g is blk)
+            for off, n in sorted((off, n) for n, (bi_, t, off, ln, patch, to_proxy) in enumerate(case.mods) if bi_ == i and t != "del"):
+                if k < len(rec["codes"]):
+                    mod_code[n] = rec["codes"][k]
+                k += 1
     line = None
     if want_model_line and rec["state"] is not None:
         # the work list: blocks in address order, modifications by (offset, registration order)
@@ -484,9 +497,9 @@ def run_impl(case, want_model_line=True):
         k = 0
         ok = True
         for blk in rec["blocks_in_order"]:
-            if blk not in B.gbs:
+            if not any(blk is g for g in B.gbs):
                 continue
-            i = B.gbs.index(blk)
+            i = next(j for j, g in enumerate(B.gbs) if g is blk)
             mods = [(off, n, t, ln, to_proxy) for n, (bi_, t, off, ln, patch, to_proxy) in enumerate(case.mods) if bi_ == i]
             if not mods:
                 continue
@@ -504,4 +517,5 @@ def run_impl(case, want_model_line=True):
                     k += 1
             work.append(" ".join(toks))
         line = rec["state"] + f" {len(work)} " + " ".join(work) if ok else None
-    return dict(line=line, dump=rec["final"] if err is None else None, error=err, built=B, ids=ids, fids=fids)
+    return dict(line=line, dump=rec["final"] if err is None else None, error=err, built=B, ids=ids, fids=fids, mod_code=mod_code,
+                mid_dump=rec["final"])
